@@ -348,8 +348,14 @@ def nonfault_checks(script, w, R, progs, fp0, e1, ref_state, ref_samples, ref_ap
         bind = script["bind"] or None
         K = script.get("n_engines", 2)
         engs = [R.engine() for _ in range(K)]
-        # every engine must see its own tape from the start: one outcome stream per engine, all with the same seed
-        tapes = [SeededOutcomes(script["tape"], w) for _ in range(K)]
+        # every engine has its own outcome tape (different outcomes per engine); its result must equal what the same tape gives on a
+        # fresh engine running the chain alone - whatever the other engines did to the shared program objects in between
+        tapes = [SeededOutcomes(script["tape"] + 7919 * k_, w) for k_ in range(K)]
+        refs = []
+        for k_ in range(K):
+            R.env.rng.handler = SeededOutcomes(script["tape"] + 7919 * k_, w)
+            r_alone = R.engine().run(list(progs), args=bind)
+            refs.append((state_obs(r_alone.state), samples_obs(r_alone)))
         progress = [0] * K
         last = [None] * K
         sched = random.Random("c09-interleave:%d" % script["tape"])
@@ -364,7 +370,7 @@ def nonfault_checks(script, w, R, progs, fp0, e1, ref_state, ref_samples, ref_ap
         R.env.rng.handler = R.outcomes
         nruns += K
         for k in range(K):
-            d = obs_diff(ref_state, state_obs(last[k].state), TOL) or samples_diff(ref_samples, samples_obs(last[k]))
+            d = obs_diff(refs[k][0], state_obs(last[k].state), TOL) or samples_diff(refs[k][1], samples_obs(last[k]))
             if d:
                 w.violation("compositional", "engines-interleaved-on-shared-programs", {"engine": k, "interleaving": order, "diff": d}, feats)
                 return
